@@ -172,6 +172,16 @@ def run(ctx):
          "a snapshot naming an unknown state is accepted silently", fs.node)
     # ---- R7 every persisted configuration id is restored (or rejected) ----------------------------
     shared.restore_every_id(ctx, "R7")
+    # ---- R10 actor records are persisted in the interpreter's own (spawn) order ---------------------------------
+    # (restore rebuilds _actors / _actor_sources in record order, and addressing by service key scans them in that order)
+    for x in own_nodes(pa.node):
+        it = x.iter if isinstance(x, (ast.For, ast.comprehension)) else None
+        if it is None or "_actors" not in norm(it):
+            continue
+        reordered = any(isinstance(y, ast.Call) and isinstance(y.func, ast.Name) and y.func.id in ("sorted", "reversed", "set", "frozenset") for y in ast.walk(it))
+        c.ob("R10", not reordered, pa, "actors-persisted-in-own-order", "actor records are written in the order of the actor map" if not reordered else
+             f"'{norm(it)}' re-orders the actor map while persisting it: the restored interpreter registers its children in a different order than the one that was "
+             f"snapshotted, and sendTo / stopChild by service key (first recorded match) reach a different child", x if not isinstance(x, ast.comprehension) else it)
     # ---- R8 every persisted actor is restored and wired to its parent ------------------------------
     al = [l for l in own_nodes(fs.node) if isinstance(l, ast.For) and "'actors'" in norm(l.iter).replace('"', "'")]
     if c.expect("R8", "restore loop over the persisted actors", len(al), 1, fs, "from_snapshot no longer restores the persisted child actors"):
